@@ -93,9 +93,16 @@ def dynamic_universe(c):
             t = c.rng.choice(entries).tz_convert('UTC')
         if entries and c.rng.random() < 0.5:
             t0 = max(entries).tz_convert('UTC') + (t - t + __import__('pandas').Timedelta(days=1))
-    u.get_assets(t0)
+    r0 = u.get_assets(t0)
+    if c.mode == 'conc':
+        # the list handed out belongs to the caller (Signal.update_assets appends to it in place): what a caller does to an
+        # earlier answer - even one for the same instant - does not change the next answer
+        r0.append('Eq:k_foreign')
+        u.get_assets(t).append('Eq:k_foreign2')
     res = u.get_assets(t)
     c.ob('member-iff-dated-and-entered-inclusive', IFF(HAS(res, w), dates.entered(w, t)), props=['C19', 'C16', 'C18'])
+    if c.mode == 'conc':
+        c.ob('answer-is-exactly-the-entered-assets', sorted(res) == sorted(k for k in dates.m if dates.entered(k, t)), props=['C19', 'C16', 'C18'])
 
 
 canary('entry instant exclusive', DynamicUniverse, 'get_assets', 'dt >= asset_date', 'dt > asset_date')(dynamic_universe)
@@ -151,7 +158,13 @@ def fixed_weight_opt(c):
     c.key('w')
     wts = num_map(c, 'initial_weights')
     opt = FixedWeightPortfolioOptimiser()
+    # an earlier call with other weights leaves nothing behind - also when THIS call's dictionary is empty (an alpha model
+    # that goes flat) - and in concrete mode the empty dictionary is tried explicitly
+    opt(c.time('t_earlier'), initial_weights=num_map(c, 'weights_of_an_earlier_call'))
     c.ob('returns-input-weights-unchanged', opt(c.time('t'), initial_weights=wts) is wts)
+    if c.mode == 'conc':
+        empty = {}
+        c.ob('empty-weights-returned-as-given', opt(c.time('t'), initial_weights=empty) is empty)
 
 
 canary('fixed-weight optimiser normalises', FixedWeightPortfolioOptimiser, '__call__', 'return initial_weights',
